@@ -10,7 +10,7 @@ TMP=$(mktemp -d /tmp/seedeval.XXXXXX)
 trap 'rm -rf "$TMP"' EXIT
 mkdir -p "$OUT"
 cp "$SRC/out/patch.diff" "$OUT/patch.diff"; cp "$SRC/out/seed_demo.rs" "$OUT/seed_demo.rs"; cp "$SRC/out/meta.json" "$OUT/agent_meta.json"
-(cd /repo && git archive HEAD | tar -x -C "$TMP")
+(cd /repo && git archive HEAD | tar -x -C "$TMP" && cp Cargo.lock "$TMP/Cargo.lock")
 cd "$TMP"; git init -q . >/dev/null 2>&1; git add -A >/dev/null 2>&1; git -c user.email=x -c user.name=x commit -qm base >/dev/null 2>&1
 export CARGO_TARGET_DIR=$TMP/target CARGO_NET_OFFLINE=true
 mkdir -p tests; cp "$OUT/seed_demo.rs" tests/seed_demo.rs
